@@ -536,17 +536,22 @@ func (f *Interface) reloadFirewall(c *config.C) {
 	defer conntrack.Unlock()
 
 	fw.rulesVersion = oldFw.rulesVersion + 1
-	// If rulesVersion is back to zero, we have wrapped all the way around. Be
-	// safe and just reset conntrack in this case.
+	// If rulesVersion is back to zero, we have wrapped all the way around and an old entry could alias a new
+	// version. Dropping conntrack here would cut every established flow even when the rules did not change, so
+	// instead skip version 0 and stamp every entry with it: 0 is never current again, which forces each entry to
+	// be revalidated against the new rules on its next use.
 	if fw.rulesVersion == 0 {
-		f.l.Warn("firewall rulesVersion has overflowed, resetting conntrack",
+		f.l.Warn("firewall rulesVersion has overflowed, revalidating conntrack",
 			"firewallHashes", fw.GetRuleHashes(),
 			"oldFirewallHashes", oldFw.GetRuleHashes(),
 			"rulesVersion", fw.rulesVersion,
 		)
-	} else {
-		fw.Conntrack = conntrack
+		fw.rulesVersion = 1
+		for _, c := range conntrack.Conns {
+			c.rulesVersion = 0
+		}
 	}
+	fw.Conntrack = conntrack
 
 	f.firewall = fw
 
